@@ -97,7 +97,7 @@ TT(t) == [k \in 1..Pow2(Len(GeneSeq)) |-> IF Eval(t, SubsetK(k)) THEN 1 ELSE 0]
 ZeroS == [r \in RxU |-> [m \in MetU |-> 0]]
 \* compartments: metabolites are created in "c" (token 1; m1, m2) or "e" (token 2; the external m3, m4); an internal
 \* metabolite can be moved to "p" (token 3).  0 = not a metabolite.
-DefComp(x) == IF x \in {"m1", "m2"} THEN 1 ELSE IF x \in {"m3", "m4"} THEN 2 ELSE 0
+DefComp(x) == IF x \in {"m1", "m2", "m5"} THEN 1 ELSE IF x \in {"m3", "m4"} THEN 2 ELSE 0
 DefAttr(x) == [name |-> 0, formula |-> 0, charge |-> 99, subsys |-> 0, comp |-> DefComp(x)]
 EmptyContent(solver) ==
   [rxns |-> {}, mets |-> {}, genes |-> {}, groups |-> {},
@@ -538,7 +538,11 @@ ContentOp(op, C) ==
     [] op.a = "RxnKnockOut"        -> A_RxnKnockOut(C, op.r)
     [] op.a = "SetRule"            -> A_SetRule(C, op.r, op.rule)
     [] op.a = "GeneKnockOut"       -> A_GeneKnockOut(C, op.g)
-    [] op.a = "KnockOutModelGenes" -> A_KnockOutModelGenes(C, op.gs)
+    \* (bad = 1: an identifier that is no gene of the model ends the list: KeyError, and nothing has changed)
+    [] op.a = "KnockOutModelGenes" -> IF "bad" \in DOMAIN op /\ op.bad = 1
+                                      THEN (IF SeqSet(op.gs) \subseteq C.genes THEN FailAtomic(C, "KeyError")
+                                            ELSE FailLoose(C, "skip"))
+                                      ELSE A_KnockOutModelGenes(C, op.gs)
     [] op.a = "RemoveGenes"        -> A_RemoveGenes(C, op.gs, op.rr)
     [] op.a = "RenameGene"         -> A_RenameGenes(C, <<[g |-> op.g, new |-> op.new]>> \o op.more)
     [] op.a = "RenameReaction"     -> A_RenameReaction(C, op.r, op.new)
